@@ -5,7 +5,7 @@ from hypothesis import strategies as st
 
 from vf.core import codec
 from vf.core.base import Violation
-from vf.core.env import DatabaseError, Env
+from vf.core.env import DatabaseError, Env, take_rows
 from vf.core.fp import fingerprint
 from vf.core.gen import Cfg, st_program
 from vf.core.proc import execute_processed, make_processor
@@ -390,7 +390,7 @@ def bare_engine_probe(tree, truth, env, proc, stats, ctx):
         if node.payload is None:
             # the chain with a statically empty operand is documented to be pruned down to the processed transfer
             raise Violation("bare-no-payload", f"process() of {what} returned {str(out)[:200]}, which is not statically trivial and carries no payload; {ctx}")
-        got = [dict(r) for r in node.payload]
+        got = take_rows(node.payload)
         bad = compare(truth, got)
         if bad:
             raise Violation("rows-differ", f"process() of {what}: payload of the processed transfer: {bad}; {ctx}", call="bare")
